@@ -65,7 +65,8 @@ HeaderDecode(h) ==
 (* a field boundary (byte offsets inside fields are added by the harness)  *)
 (***************************************************************************)
 LenFields == {"prevStoredLen", "truncCount", "prevPushedLen", "pushedLen", "modifiedLen", "prevHolesLen"}
-LenClasses == {"exact", "zero", "minus1", "plus1", "huge61", "b63", "max"}
+\* fit4 / fit8: the largest count whose byte total (count * 4, count * 8) still fits in 64 bits, so that only "position + total" overflows
+LenClasses == {"exact", "zero", "minus1", "plus1", "huge61", "b63", "max", "fit4", "fit8"}
 ChangeCases == [k : {"change"}, kind : {"raw", "cmp"}, field : LenFields, class : LenClasses, cut : {-1}]
                \cup [k : {"change"}, kind : {"raw", "cmp"}, field : {"-"}, class : {"exact"}, cut : 0..12]
 
